@@ -212,6 +212,60 @@ def _nondefault_effect_orders(rep):
                 break
 
 
+def _rebuff_orders(rep):
+    """A running boost follows its buff id: a skill level decides whether the module's buff id names a known buff.  All
+    orders of {activate the booster, train the skill} and then un-train / re-train: both ships of the fleet are boosted
+    exactly while the booster runs and the id is known."""
+    from eos import Fit, Fleet, ModuleHigh, Ship, Skill, SolarSystem, State
+    from eos.const.eos import ModAffecteeFilter, ModAggregateMode, ModDomain, ModOperator
+    from eos.const.eve import AttrId, EffectCategoryId, EffectId
+    from eos.eve_obj.buff_template import WarfareBuffTemplate
+    from eos.eve_obj.modifier import DogmaModifier
+    ch = mem.MemCache()
+    a = ch.mkattr(stackable=True)
+    for aid in (AttrId.warfare_buff_1_id, AttrId.warfare_buff_1_value, AttrId.skill_level):
+        ch.mkattr(attr_id=aid)
+    burst = ch.mkeffect(effect_id=EffectId.module_bonus_warfare_link_armor, category_id=EffectCategoryId.active)
+    ch.buffs[10] = {WarfareBuffTemplate(buff_id=10, affectee_filter=ModAffecteeFilter.item, affectee_attr_id=a.id,
+                                        operator=ModOperator.post_percent, aggregate_mode=ModAggregateMode.maximum)}
+    tweak = ch.mkeffect(category_id=EffectCategoryId.passive, modifiers=(DogmaModifier(
+        affectee_filter=ModAffecteeFilter.domain, affectee_domain=ModDomain.ship,
+        affectee_attr_id=AttrId.warfare_buff_1_id, operator=ModOperator.mod_add,
+        aggregate_mode=ModAggregateMode.stack, affector_attr_id=AttrId.skill_level),))
+    shipt = ch.mktype(attrs={a.id: 100})
+    modt = ch.mktype(attrs={AttrId.warfare_buff_1_id: 9, AttrId.warfare_buff_1_value: 50}, effects=[burst], default_effect=burst)
+    skillt = ch.mktype(effects=[tweak])
+    for order in itertools.permutations(['activate', 'train']):
+        for tail in itertools.permutations(['untrain', 'retrain', 'stop', 'restart']):
+            ss = SolarSystem(source=mem.source(ch))
+            f, g = Fit(solar_system=ss), Fit(solar_system=ss)
+            f.ship, g.ship = Ship(shipt.id), Ship(shipt.id)
+            fl = Fleet()
+            fl.fits.add(f)
+            fl.fits.add(g)
+            sk = Skill(skillt.id, level=0)
+            f.skills.add(sk)
+            m = ModuleHigh(modt.id, state=State.online)
+            f.modules.high.append(m)
+            steps = list(order) + list(tail)
+            for k, st in enumerate(steps):
+                if st in ('activate', 'restart'):
+                    m.state = State.active
+                elif st == 'stop':
+                    m.state = State.online
+                elif st in ('train', 'retrain'):
+                    sk.level = 1
+                else:
+                    sk.level = 0
+                want = 150 if (m.state == State.active and sk.level == 1) else 100
+                got = (f.ship.attrs[a.id], g.ship.attrs[a.id])
+                rep.case(kind='order-rebuff')
+                if not (C.close(got[0], want) and C.close(got[1], want)):
+                    rep.violate('after %s the fleet ships see %r instead of %r' % ('>'.join(steps[:k + 1]), got, (want, want)),
+                                {'scenario': 'rebuff', 'order': steps})
+                    break
+
+
 def _fleet_universe():
     from eos.const.eos import ModAffecteeFilter, ModAggregateMode, ModOperator
     from eos.const.eve import AttrId, EffectCategoryId, EffectId
@@ -358,6 +412,7 @@ def oracle(ctx):
     _projection_orders(ctx.report)
     _detached_target_orders(ctx.report)
     _nondefault_effect_orders(ctx.report)
+    _rebuff_orders(ctx.report)
     _fleet_orders(ctx.report)
     ctx.report.exhaustive = None
 
